@@ -31,25 +31,40 @@ def finish(ctx, behs):
     return events
 
 
-def expr_history(rnd, order, nsteps):
+def expr_history(rnd, order, nsteps, order2=None):
     """code -> spec: random build/combine/drop history over a pool of up to 8 handles"""
     calls = []
     live, parked = [], []
+    hord = {}
     names = ['g%d' % i for i in range(8)]
     for _ in range(nsteps):
         free = [h for h in names if h not in live and h not in parked]
         r = rnd.random()
         if (r < 0.25 or len(live) < 2) and free:
-            calls.append({'op': 'var', 'h': free[0], 'v': rnd.choice(order)} if rnd.random() < 0.85 else {'op': 'const', 'h': free[0], 'b': rnd.random() < 0.5})
+            o = order2 if (order2 and rnd.random() < 0.4) else order
+            c = {'op': 'var', 'h': free[0], 'v': rnd.choice(o)} if rnd.random() < 0.85 else {'op': 'const', 'h': free[0], 'b': rnd.random() < 0.5}
+            if order2:
+                c['order'] = list(o)
+            hord[free[0]] = o
+            calls.append(c)
             live.append(free[0])
         elif r < 0.6 and free:
-            calls.append({'op': 'apply', 'bop': rnd.choice(['and', 'or', 'xor']), 'h1': rnd.choice(live), 'h2': rnd.choice(live), 'h': free[0]})
-            live.append(free[0])
+            h1 = rnd.choice(live)
+            same = [h for h in live if hord[h] == hord[h1]]
+            h2 = rnd.choice(same) if rnd.random() < 0.9 else rnd.choice(live)
+            calls.append({'op': 'apply', 'bop': rnd.choice(['and', 'or', 'xor']), 'h1': h1, 'h2': h2, 'h': free[0]})
+            if hord[h1] == hord[h2]:          # otherwise the call must raise and no handle comes into existence
+                hord[free[0]] = hord[h1]
+                live.append(free[0])
         elif r < 0.7 and free:
-            calls.append({'op': 'not', 'h1': rnd.choice(live), 'h': free[0]})
+            h1 = rnd.choice(live)
+            calls.append({'op': 'not', 'h1': h1, 'h': free[0]})
+            hord[free[0]] = hord[h1]
             live.append(free[0])
         elif r < 0.8 and free:
-            calls.append({'op': 'restrict', 'h1': rnd.choice(live), 'v': rnd.choice(order), 'b': rnd.random() < 0.5, 'h': free[0]})
+            h1 = rnd.choice(live)
+            calls.append({'op': 'restrict', 'h1': h1, 'v': rnd.choice(order), 'b': rnd.random() < 0.5, 'h': free[0]})
+            hord[free[0]] = hord[h1]
             live.append(free[0])
         elif r < 0.87 and live:
             h = rnd.choice(live)
@@ -86,6 +101,16 @@ def run(ctx):
     for _ in range(400 if q else 12000):
         order = rnd.choice(orders)
         behs.append({'order': order, 'calls': expr_history(rnd, order, rnd.randint(12, 30)), 'family': 'random history',
+                     'build': rnd.choice(['expr', 'node']), 'restrict_arg': rnd.choice(['bool', 'int'])})
+    # several orderings alive in one heap: the unique table is global, nodes are shared across orderings
+    for _ in range(300 if q else 8000):
+        order = rnd.choice(orders)
+        o2 = list(order)
+        while o2 == list(order):
+            rnd.shuffle(o2)
+        if rnd.random() < 0.3:
+            o2 = o2 + ['z']
+        behs.append({'order': order, 'calls': expr_history(rnd, order, rnd.randint(12, 30), order2=o2), 'family': 'random history, two orderings',
                      'build': rnd.choice(['expr', 'node']), 'restrict_arg': rnd.choice(['bool', 'int'])})
     for b in behs:
         ops = [c['op'] for c in b['calls']]
